@@ -32,7 +32,10 @@ TRUSTED = ["model: coq/Model/CacheMachine.v (hand-written from _slos.py, _abstra
            "tied by this correspondence stream: outputs and white-box cache keys after every operation)",
            "native exqalibur behaviour (FSArray order, FSMask rule, FSMap over an empty parent array = crash) is "
            "modelled, not verified"]
-ASSUMPTIONS = ["the fresh object is configured in the order set_circuit, set_cutoff, set_mask, set_input_state",
+ASSUMPTIONS = ["Simulator: the model covers the invalidation policy of _evolve (circuit, heralds, mask usability) and the "
+               "leftover engine mask; the values probs_svd / evolve compute from the cache (merging, post-selection, "
+               "detectors, performances) are covered by the implementation-vs-fresh-implementation stream only",
+               "the fresh object is configured in the order set_circuit, set_cutoff, set_mask, set_input_state",
                "floating point: absolute tolerance 1e-9 (MPS: 1e-7)",
                "a raising mutator ends a history (the object may be half-updated)"]
 EXPLANATION = ("coherence of the cached state with the configuration is proved by invariant induction over all "
@@ -910,6 +913,61 @@ def rand_svd(rng, m):
     return [[p / tot, t] for p, t in res]
 
 
+SUPER = {2: ([1, 1], [2, 0], [0, 2]), 3: ([1, 1, 0], [0, 1, 1], [1, 0, 1], [2, 0, 0])}
+DETECTOR_KINDS = ("none", "pnr", "thr", "mixed")
+
+
+def detectors_of(rng, kind, m):
+    if kind == "none":
+        return None
+    if kind == "pnr":
+        return ["pnr"] * m
+    if kind == "thr":
+        return ["thr"] * m
+    d = [rng.choice(["pnr", "thr"]) for _ in range(m)]
+    d[rng.below(m)] = "thr"
+    return d
+
+
+def rand_sim_flip_history(rng, circs):
+    """Consecutive probs_svd queries that share basic states (superposed inputs go through Simulator._evolve, keyed
+    (state, n)) while what the cached evolutions depend on changes between them: the detector kinds (None / all PNR =
+    the heralds mask is usable, threshold / mixed = it is not), the heralds, the filter."""
+    i = rng.below(len(circs))
+    m = circs[i].m
+    a, b = rng.shuffle(SUPER[m])[:2]
+    amp = [(0.6, 0.0, 0.0, 0.8), (0.8, 0.0, 0.6, 0.0), (0.0, 0.6, 0.8, 0.0)]
+
+    def svd():
+        c = rng.choice(amp)
+        x, y = (a, b) if rng.chance(1, 2) else (b, a)
+        sup = [[c[0], c[1], x], [c[2], c[3], y]]
+        if rng.chance(1, 2):
+            return [[1.0, sup]]
+        other = rng.choice([z for z in SIM_STATES[m] if z not in (a, b)])
+        return [[0.5, [[1.0, 0.0, other]]], [0.5, sup]]
+
+    h = [["circ", i], ["heralds", [[rng.below(m), 0 if rng.chance(3, 4) else 1]]]]
+    if rng.chance(1, 3):
+        h.append(["filter", rng.rint(1, 2)])
+    kinds = rng.shuffle(DETECTOR_KINDS)
+    # the first two queries always differ in the usability of the mask
+    first = rng.choice(["none", "pnr"]) if rng.chance(1, 2) else rng.choice(["thr", "mixed"])
+    second = rng.choice(["thr", "mixed"]) if first in ("none", "pnr") else rng.choice(["none", "pnr"])
+    for kind in [first, second] + kinds[:rng.below(3)]:
+        h.append(["q", "probs_svd", svd(), detectors_of(rng, kind, m)])
+        r = rng.below(8)
+        if r < 3:
+            h.append(["filter", rng.below(3)])
+        elif r < 4:
+            h.append(["heralds", [[rng.below(m), rng.below(2)]]])
+        elif r < 5:
+            h.append(["q", "evolve", rng.choice([a, b])])
+    if h[-1][0] != "q":
+        h.append(["q", "probs_svd", svd(), detectors_of(rng, rng.choice(DETECTOR_KINDS), m)])
+    return h
+
+
 def rand_sim_history(rng, circs, maxlen=8):
     i = rng.below(len(circs))
     m = circs[i].m
@@ -1170,10 +1228,18 @@ def run(ctx):
         check_backend_stream(ctx, name, circs, hs, f"random-{name}", with_model=(name == "SLOS"))
     # ---- Simulator / Stepper / Processor (model-free comparison with a fresh object)
     cdesc = [c.desc() for c in circs[:5]]
-    sim_corpus = [[["circ", 2], ["heralds", [[2, 0]]], ["q", "probs_svd", [[1.0, [[1.0, 0.0, [1, 0, 0]]]]], None],
-                   ["q", "probs", [1, 1, 0]]]]
+    sim_corpus = [
+        # probs after probs_svd under a herald mask (repaired by bc7ab4f9)
+        [["circ", 2], ["heralds", [[2, 0]]], ["q", "probs_svd", [[1.0, [[1.0, 0.0, [1, 0, 0]]]]], None],
+         ["q", "probs", [1, 1, 0]]],
+        # the same superposed basic states under the heralds mask (PNR), then with threshold detection (8766d55d)
+        [["circ", 0], ["heralds", [[1, 0]]], ["q", "probs_svd", [[1.0, [[0.6, 0.0, [2, 0]], [0.0, 0.8, [1, 1]]]]], None],
+         ["filter", 2],
+         ["q", "probs_svd", [[0.5, [[1.0, 0.0, "|{_:0},{_:1}>"]]], [0.5, [[0.6, 0.0, [1, 1]], [0.0, 0.8, [2, 0]]]]],
+          ["thr", "pnr"]]]]
     for backend, n in (("SLOS", ctx.n(300, 3000)), ("Naive", ctx.n(80, 1000))):
-        hs = sim_corpus + [rand_sim_history(rng, circs[:5]) for _ in range(n)]
+        hs = sim_corpus + [rand_sim_flip_history(rng, circs[:5]) if j % 5 < 2 else rand_sim_history(rng, circs[:5])
+                           for j in range(n)]
         ctx.log(f"Simulator({backend}): {len(hs)} histories")
         check_generic_stream(ctx, "simulator:" + backend, "Simulator", cdesc, hs, sim_fresh, sim_signature,
                              f"simulator-{backend}", tol=1e-8)
